@@ -148,6 +148,21 @@ Theorem C20_stop_waits : forall (t cap : N) (evs : list levent) (c : N) (evs' : 
 Proof. exact stop_waits. Qed.
 Print Assumptions C20_stop_waits.
 
+(* The idle clause counts REQUESTS, not connections: with prompt polling the server is never still serving later than
+   last-received-request + T, whatever connections are open (a client that connects and stays silent does not re-arm
+   anything: LAccept is not in the timer's alphabet); and once the idle shutdown phase has begun, connections that
+   are still open delay the exit by at most the cap. *)
+Theorem C20_silent_connection_does_not_keep_alive :
+  forall (t cap : N) (evs : list levent),
+  let s := lexec (linit t cap) evs in
+  (prompt (linit t cap) evs = true -> t <> 0 -> lphase s = Serving -> lnow s <= llast_recv s + t)
+  /\ (forall since, lphase s = Draining since RIdle -> since + lcap s <= lnow s ->
+       exists cut, lphase (lstep s LWake) = Terminated since (lnow s) RIdle cut).
+Proof.
+  intros t cap evs s. split; [apply serving_bounded | intros since; apply idle_drain_ends].
+Qed.
+Print Assumptions C20_silent_connection_does_not_keep_alive.
+
 (* ---------- clients at the seams: start-up report, arrival during shutdown, cut connections (Model/ServerExit.v) ---------- *)
 
 (* The Startup model lets a waiting client proceed on the mailbox values StOk | StInUse.  In the code that is:
@@ -282,6 +297,15 @@ Example C20_late_request_run :
   prompt (linit 6000 10000) evs = true
   /\ lphase (lexec (linit 6000 10000) evs) = Draining 10500 RIdle
   /\ lphase (lexec (linit 6000 10000) (firstn 10 evs)) = Serving.
+Proof. vm_compute. repeat split; reflexivity. Qed.
+
+(* a connection that is opened and stays silent: idle shutdown at T = 2000 all the same, exit at T + cap with that
+   connection cut (it had no request in flight) *)
+Example C20_silent_connection_run :
+  let evs := [LAccept 1; LTick 2000; LPoll; LWake; LTick 9999; LWake; LTick 1; LWake] in
+  prompt (linit 2000 10000) evs = true
+  /\ lphase (lexec (linit 2000 10000) (firstn 6 evs)) = Draining 2000 RIdle
+  /\ lphase (lexec (linit 2000 10000) evs) = Terminated 2000 12000 RIdle [(1, false)].
 Proof. vm_compute. repeat split; reflexivity. Qed.
 
 (* a client arriving while an in-flight compile finishes after a stop: refused, the connection set is unchanged *)
